@@ -116,6 +116,36 @@ class Explorer:
         self.known_hits = []      # (id, label, model)
         self.max_violations = 4
         self.nontrivial_labels = set()
+        self.xc_max = 0           # cross-check (cvc5, exact encoding, own SMT-LIB emitter) at most this many discharged obligations
+        self.xc_every = 5
+        self.xc_seed = 0
+        self.xc_seen = set()
+
+    def _crosscheck(self, negated_goal, label):
+        """sampled second opinion on a discharged obligation (z3/Gauss said: pc ∧ ¬goal unsat)"""
+        if self.xc_max <= 0 or label in self.xc_seen:
+            return
+        import zlib
+        if (zlib.crc32(label.encode("utf8", "replace")) + self.xc_seed) % self.xc_every:
+            return
+        if self.deadline is not None and time.time() > self.deadline - 10:
+            return
+        self.xc_seen.add(label)
+        self.xc_max -= 1
+        from sxl import crosscheck
+        v, nn, nv, dt = crosscheck.check(list(self.pc) + [negated_goal])
+        st = self.stats
+        st["xc_queries"] = st.get("xc_queries", 0) + 1
+        st["xc_s"] = st.get("xc_s", 0.0) + dt
+        st["xc_max_nodes"] = max(st.get("xc_max_nodes", 0), nn)
+        if v == "unsat":
+            st["xc_agree"] = st.get("xc_agree", 0) + 1
+        elif v == "sat":
+            raise Inconclusive("solver disagreement: z3/Gauss discharged %r, cvc5 finds the exact encoding satisfiable" % label[:160])
+        elif v.startswith("error"):
+            raise Inconclusive("cross-check failed on %r: %s" % (label[:120], v))
+        else:
+            st["xc_undecided"] = st.get("xc_undecided", 0) + 1
 
     # ---- solver plumbing
     def _check(self, *extra, solver=None, allow_unknown=False, lemma_cap=400):
@@ -467,6 +497,8 @@ class Explorer:
                 raise Violation(label, mod)
         else:
             self.stats["discharged"] += 1
+            if b.__class__ is Bit and self.xc_max > 0:
+                self._crosscheck(bnot(b), label)
 
     def witness(self):
         ok, m = self._check_hybrid(1)
